@@ -8,16 +8,21 @@ from contracts import optics, fourier
 def build(chk):
     chk.assumptions_used.update(["A-REAL", "A-NP"])
     chk.math_lemmas.append("operator identities of the DFT (ifft.fft = id, rolls compose, diagonal phases compose) as library contract of numpy.fft")
-    chk.notes.append("requires: square N x N input, N even, wvl, d1, d2 > 0; ft2/ift2 used through their C09 contract")
+    chk.notes.append("requires: square N x N input (N even or odd), wvl, d1, d2 > 0; ft2/ift2 used through their C09 contract")
     optics.c11_obligations(chk)
     optics.c11_orientation(chk)
+    optics.c11_fresnel_as(chk)
+    chk.bounded_native("every propagator reproduces the analytic Gaussian beam (complex field: width, curvature, Gouy phase; no free phase), even and odd grid sizes, on- and off-axis beams, magnifications 1 / 1.5 / 0.75, both signs of z", "gaussian",
+                       "N in {96, 97, 127, 128}, tolerance 1e-6 of the peak (aliasing of the chosen beams < 1e-7)", "aotools/opticalpropagation.py:angularSpectrum,oneStepFresnel,twoStepFresnel,lensAgainst")
+    chk.bounded_native("focal-plane field of a circular aperture is the Airy pattern centred on sample N//2 (peak exact, side lobes within the pixelation error 2.5 / radius)", "airy",
+                       "N in {255, 256, 192}", "aotools/opticalpropagation.py:lensAgainst")
     # the propagator identities use ft2 / ift2 through their contract and assume the input field is not modified: both are re-checked here
     with chk.borrow("C09"):
         fourier.obligations(chk, real_variants=False)
     with chk.borrow("C10"):
         optics.c10_obligations(chk)
     chk.confirm_known("C11-negative-distance-orientation", "orientation", {"m": 0.8, "z": 100.0})
-    chk.not_decided.append("reproduces the analytic Gaussian beam (width, curvature, Gouy phase) and the Airy pattern: continuous-limit statements, no per-call contract")
+    chk.not_decided.append("reproduces the analytic Gaussian beam and the Airy pattern in the continuous limit: decided deductively only as 'each propagator is the discretised Fresnel integral on grids centred on the transform origin' (kernel-form obligations); the closed forms themselves are bounded native comparisons")
     chk.not_decided.append("numerical agreement between angular-spectrum and Fresnel propagators on coinciding grids (different discretisations; only orientation/kernel form is decided)")
     chk.not_decided.append("orientation for negative partial distances: listed finding C11-negative-distance-orientation (proved only for positive distances)")
 
